@@ -30,7 +30,7 @@ type Bias struct {
 // BiasC12 favours events, filters and the delivery windows.
 var BiasC12 = Bias{Name: "C12", SplitPct: 60, StartSplitPct: 12, KeySpread: 15, StartFaultPct: 10, HookPct: 20, MaxSubs: 7,
 	Actions: map[string]int{OpSubscribe: 3, OpEvent: 4, OpUpdateSub: 1, OpComplete: 1, OpError: 1, OpDone: 1, OpCloseSub: 1,
-		OpUnsubscribe: 2, OpRemoveClient: 1, OpHeartbeat: 1, OpShutdown: 1, OpReleaseStart: 1}}
+		OpUnsubscribe: 2, OpRemoveClient: 1, OpHeartbeat: 2, OpShutdown: 1, OpReleaseStart: 1}}
 
 // BiasC13 favours trigger churn, start-up faults and the start-up windows.
 var BiasC13 = Bias{Name: "C13", SplitPct: 35, StartSplitPct: 45, KeySpread: 50, StartFaultPct: 35, HookPct: 35, MaxSubs: 8,
@@ -221,6 +221,23 @@ func (g *gen) draw(op string, parent *Step) (Step, bool) {
 
 	case OpComplete, OpError, OpHeartbeat:
 		ps := g.periodsWhere(sourceLive)
+		if op == OpHeartbeat {
+			// prefer triggers that have a subscriber a heartbeat is due to
+			due := g.periodsWhere(func(p *MPeriod) bool {
+				if !sourceLive(p) {
+					return false
+				}
+				for _, i := range p.Subs {
+					if m.heartbeatDue(m.Subs[i]) {
+						return true
+					}
+				}
+				return false
+			})
+			if len(due) > 0 && g.pct(85, "heartbeatDue") {
+				ps = due
+			}
+		}
 		if len(ps) == 0 {
 			return Step{}, false
 		}
@@ -318,6 +335,17 @@ func (g *gen) windows(st Step) []Split {
 		p := m.Periods[st.Period]
 		for _, i := range p.Subs {
 			for _, pt := range []string{PtUpdate, PtWFlush} {
+				c := st
+				c.Split = &Split{Point: pt, Target: i}
+				if m.PredictReach(c) {
+					out = append(out, *c.Split)
+				}
+			}
+		}
+	case OpHeartbeat:
+		p := m.Periods[st.Period]
+		for _, i := range p.Subs {
+			for _, pt := range []string{PtHeartbeat, PtWHeartbeat} {
 				c := st
 				c.Split = &Split{Point: pt, Target: i}
 				if m.PredictReach(c) {
